@@ -201,6 +201,15 @@ type outcome struct {
 	excluded    int
 }
 
+func hasLink(c Case) bool {
+	for _, op := range c.Setup {
+		if op.K == "symlink" {
+			return true
+		}
+	}
+	return false
+}
+
 func has(set []string, x string) bool {
 	for _, s := range set {
 		if s == x {
@@ -229,6 +238,11 @@ func check(c Case) (string, string, outcome) {
 		key := "{" + strings.Join(set, ",") + "}"
 		if c.Op.K == "removeall" && beforeSnap[c.Op.P].Kind == 'd' && !has(set, "RemoveFS") && !has(set, "RemoveAllFS") && !has(set, "MountFS") && vf.Known("C08:removeall-dir-without-remove") {
 			out.excluded++
+			continue
+		}
+		if hasLink(c) && has(ifs, "LstatFS") && !has(set, "LstatFS") {
+			// a file system that holds symbolic links exposes Lstat (only os.FS does, and it does): without it no
+			// helper can tell a link from its target, so the full FS is not the oracle for such a subset
 			continue
 		}
 		e := build(c)
@@ -406,8 +420,45 @@ func genCase(t *rapid.T, inner string) Case {
 	}
 	snap, _ := ops.SnapFS(scratch)
 	tr := gen.TreeOf(snap)
+	linked := false
+	if inner == "osfs" && rapid.IntRange(0, 2).Draw(t, "withlink") == 0 {
+		// one symbolic link in the start state (only os.FS can hold one): at the top level, to an existing directory or
+		// file below the root, so that walking the tree stays finite. Helpers that look a path element up must follow it
+		// exactly where the native implementation does.
+		var targets []string
+		for _, q := range append(append([]string{}, tr.Dirs...), tr.Files...) {
+			if q != "." {
+				targets = append(targets, q)
+			}
+		}
+		if len(targets) > 0 {
+			linked = true
+			c.Setup = append(c.Setup, ops.Op{K: "symlink", P: rapid.SampledFrom(targets).Draw(t, "linktarget"), P2: "l"})
+			// the link resolves like its target: make the generators see it as such
+			tgt := c.Setup[len(c.Setup)-1].P
+			isDir := false
+			for _, d := range tr.Dirs {
+				isDir = isDir || d == tgt
+			}
+			if isDir {
+				tr.Dirs = append(tr.Dirs, "l")
+			} else {
+				tr.Files = append(tr.Files, "l")
+			}
+		}
+	}
 	k := rapid.SampledFrom(helperKinds).Draw(t, "helper")
 	op := ops.Op{K: k, P: gen.Path(t, tr, names, 3, true, "p"), Perm: gen.Perm(t, "perm")}
+	if linked && rapid.Bool().Draw(t, "vialink") {
+		// at or through the link
+		op.P = "l"
+		if rapid.Bool().Draw(t, "below") {
+			op.P = "l/" + rapid.SampledFrom(names).Draw(t, "belowname")
+			if rapid.IntRange(0, 2).Draw(t, "deeper") == 0 {
+				op.P += "/" + rapid.SampledFrom(names).Draw(t, "belowname2")
+			}
+		}
+	}
 	switch k {
 	case "openfile":
 		op.Flag = gen.Flags(t, "flag")
